@@ -979,6 +979,7 @@ def run_history(ctx, rt, rng, n_ops, translate=True, mutate_alphabet=False):
                    "[C]" * 300 + "[Ring3][Ring1][Ring1][=Branch2]", "[C][=C][Branch1][C][O][C][Ring1][Ring2].[N][#C]"]
     probes_dec += gens.gen_stay_alive(rng, 10, 30)
     probes_enc += ["C1" + "C" * 20 + "1", "C(" + "C" * 18 + ")N", "N[C@](C)(F)C(=O)O", "F/C=C/1CCCC\\1", "C1CC1.C#N"]
+    recent_keys = []     # keys that a neighbour-table move touched: translation probes are built around them
     for _ in range(n_ops):
         r = rng.random()
         if r < 0.10:
@@ -1007,7 +1008,27 @@ def run_history(ctx, rt, rng, n_ops, translate=True, mutate_alphabet=False):
             expected.append("ok")
             script.append(("get_semantic_robust_alphabet",))
         elif r < 0.36:
-            d = gens.random_table(rng) if rng.random() < 0.7 else dict(rng.choice(gens.BAD_DICTS))
+            roll_t = rng.random()
+            if roll_t < 0.35:
+                # a NEIGHBOUR of the table in force: one key added, removed or changed - the histories in which a
+                # memo table filled under the old table would have to be invalidated although "almost nothing" changed
+                d = dict(S.get_semantic_constraints())
+                move = rng.random()
+                ks = [k for k in d if k != "?"]
+                if move < 0.4 or not ks:
+                    k0 = rng.choice(["Si", "Se", "Sn", "Xe", "Fe", "C+1", "N-1", "S+2", "Zn", "B"])
+                    d[k0] = rng.choice([v for v in (0, 1, 2, 3, 4, 5, 6, 7) if v != d.get("?")])
+                elif move < 0.75:
+                    k0 = rng.choice(ks)
+                    del d[k0]
+                else:
+                    k0 = rng.choice(ks)
+                    d[k0] = rng.choice([v for v in (0, 1, 2, 3, 4, 5, 6, 7) if v != d[k0]])
+                recent_keys.append(k0)
+            elif roll_t < 0.8:
+                d = gens.random_table(rng)
+            else:
+                d = dict(rng.choice(gens.BAD_DICTS))
             if rng.random() < 0.15:
                 ks = [k for k in d if isinstance(k, str) and k != "?"]
                 if ks:
@@ -1078,6 +1099,10 @@ def run_history(ctx, rt, rng, n_ops, translate=True, mutate_alphabet=False):
         elif translate:
             if rng.random() < 0.6:
                 x = rng.choice(probes_dec)
+                if recent_keys and rng.random() < 0.5:
+                    k0 = rng.choice(recent_keys[-3:])
+                    x = rng.choice(["[C][#%s][#C]", "[%s][=O][=O][=O][=O]", "[C][=%s][=C].[%s][F][F][F][F][F][F][F]",
+                                    "[O][%s][Branch1][C][F][Branch1][C][F][Branch1][C][F][F]"]).replace("%s", k0)
                 with_c = rng.random() < 0.2
                 try:
                     import warnings
@@ -1119,6 +1144,8 @@ def run_history(ctx, rt, rng, n_ops, translate=True, mutate_alphabet=False):
     expected.append(("SET", frozenset(a)))
     final_table = S.get_semantic_constraints()
     finals = []
+    for k0 in list(dict.fromkeys(recent_keys))[-6:]:
+        probes_dec = probes_dec + ["[C][#%s][#C]" % k0, "[%s][=O][=O][=O][=O]" % k0, "[%s][F][F][F][F][F][F][F]" % k0]
     for x in probes_dec:
         try:
             w = "ok\t" + enc(S.decoder(x))
@@ -1344,6 +1371,12 @@ def check_C19(ctx, rt):
         calls.append(("dec", x))
     for x in smi:
         calls.append(("enc", x))
+    # nesting far below and far above the interpreter's recursion limit (never near it: the available stack depends
+    # on the calling thread): whatever a call does about deep input must not depend on what other threads do meanwhile
+    for depth in (300, 600, 1500, 2200, 3000):
+        calls.append(("dec", "[C][Branch2][P][P]" * depth + "[C]"))
+        calls.append(("enc", "C(" * depth + "C" + ")C" * depth))
+    limit_before = sys.getrecursionlimit()
 
     def run_call(c):
         try:
@@ -1390,7 +1423,12 @@ def check_C19(ctx, rt):
         fresh_selfies()
     for c, r, s in mism[:5]:
         add_violation(ctx, "C19:differs-from-serial", "a concurrent call returned something else than the same call alone",
-                      call=c, concurrent=r, serial=s)
+                      call=(c[0], c[1][:200]), concurrent=r[:200], serial=s[:200])
+    if sys.getrecursionlimit() != limit_before:
+        add_violation(ctx, "C19:process-global-setting", "translation calls changed the interpreter's recursion limit "
+                      "(a process-wide setting every other thread's calls observe)",
+                      before=limit_before, after=sys.getrecursionlimit())
+        sys.setrecursionlimit(limit_before)
     ctx.sample({"threads": nthreads, "calls_per_thread": len(calls), "example_call": calls[0]})
     ctx.assumptions.append("bytecode-level interleavings inside CPython container operations are assumed atomic (GIL); the stress run can exhibit but not exclude a race")
 
@@ -1432,6 +1470,15 @@ def long_charge_witness():
         sf.set_semantic_constraints("default")
 
 
+def only_raises(fn, name):
+    """fn() returns, or raises exactly the named exception class"""
+    try:
+        fn()
+    except BaseException as e:  # noqa
+        return type(e).__name__ == name
+    return True
+
+
 def deep_nesting_witness():
     try:
         sf.decoder("[C][Branch3][P][P][P]" * 2000)
@@ -1444,7 +1491,7 @@ def eval_check(expr):
     global sf
     sf = sys.modules["selfies"]
     env = {"sf": sf, "raises": raises, "alias_witness": alias_witness, "long_charge_witness": long_charge_witness,
-           "matching_witness": matching_witness, "deep_nesting_witness": deep_nesting_witness}
+           "matching_witness": matching_witness, "deep_nesting_witness": deep_nesting_witness, "only_raises": only_raises}
     try:
         return bool(eval(expr, env))
     except BaseException as e:  # noqa
